@@ -346,6 +346,9 @@ pub fn gen(tier: Tier, seed: u64) -> Vec<String> {
         made += 1;
         let tags: Vec<&str> = f.tags.iter().cloned().collect();
         let tags = if tags.is_empty() { "-".to_string() } else { tags.join("+") };
+        // informational: does the generated expression satisfy LexOk, the hypothesis of C08_insert_text / C08_remove_text?
+        let lk = if crate::c09::lex_ok(&e0) { "lexok" } else { "lexok-not" };
+        let tags = if tags == "-" { lk.to_string() } else { format!("{}+{}", tags, lk) };
         let src = print_src(&e0, &mut rng, 120);
         let fsheet = rng.below(3) as usize;
         let boundary = !small;
